@@ -45,9 +45,9 @@ ANCHORS = ['pfhedge.nn.functional:bs_european_delta',
            'pfhedge.autogreek:theta',
            'pfhedge._utils.parse:parse_spot',
            'pfhedge._utils.parse:parse_volatility']
-DECIDING = ["module.forward_is_delta", "greek.european", "greek.european_binary", "greek.american_binary", "greek.lookback", "autogreek.delta", "autogreek.gamma",
+DECIDING = ["greek.args_untouched", "greek.alias_invariant", "module.forward_is_delta", "greek.european", "greek.european_binary", "greek.american_binary", "greek.lookback", "autogreek.delta", "autogreek.gamma",
             "autogreek.vega", "autogreek.theta", "autogreek.gamma_from_delta"]
-REQUIRED_BRANCHES = ["t!=1", "K!=1", "put", "american_binary.reached_spot_below", "via.module", "via.functional"]
+REQUIRED_BRANCHES = ["t!=1", "K!=1", "put", "american_binary.reached_spot_below", "via.module", "via.functional", "alias.spot_at_running_max"]
 
 N = 24
 
@@ -151,8 +151,36 @@ def drv_bs(ctx, k, rng):
     pts = dict(log_moneyness=s, time_to_maturity=tt, volatility=v, strike=K, call=call, via=via)
     if path:
         pts["max_log_moneyness"] = m
+    before = [(z, z.clone(), z._version) for z in (s, tt, v, m)]
     with torch.enable_grad():
         g = {name: greek(name).detach() for name in ("delta", "gamma", "vega", "theta")}
+    # the caller's tensors come back with the values they went in with.  (autogreek switches requires_grad on for the tensor it differentiates with
+    # respect to when that is the caller's own - volatility, time to maturity, spot; values are untouched and this is not judged, see DESIGN 8.2)
+    ctx.seen("greek.args_untouched")
+    bad = [i for i, (z, z0, ver) in enumerate(before) if z.grad is not None or z._version != ver or not torch.equal(z, z0)]
+    ctx.check("greek.args_untouched", not bad, "argument_modified", f"{kind} Greeks ({via}) changed their argument(s) {[['log_moneyness', 'time_to_maturity', 'volatility', 'max_log_moneyness'][i] for i in bad]} "
+              "(value, version counter or .grad)", sig=(kind, via, tuple(bad)))
+    for z, _, _ in before:
+        z.requires_grad_(False)
+    if path:
+        # aliasing: the spot sitting at its running maximum, passed as the *same tensor object* for both arguments, is the same point as with an equal copy
+        ctx.seen("greek.alias_invariant")
+        ctx.branch("alias.spot_at_running_max")
+        with torch.enable_grad():
+            for name in ("delta", "gamma", "vega", "theta"):
+                fn = getattr(mod, name) if via == "module" else (lambda a_, b_, c_, d_, nm=name: getattr(F, f"bs_{kind}_" + nm)(a_, b_, c_, d_, strike=K))
+                for z, _, _ in before:
+                    z.requires_grad_(False)
+                sc = s.detach().clone()
+                gb = fn(s, sc, tt, v).detach()
+                s.requires_grad_(False)
+                ga = fn(s, s, tt, v).detach()
+                if not bool(((ga == gb) | (torch.isnan(ga) & torch.isnan(gb))).all()):
+                    ctx.violation("greek.alias_invariant", "alias_dependence", f"{kind} {name} ({via}) with log_moneyness and max_log_moneyness given as the same "
+                                  f"tensor object differs from the call with an equal copy", sig=(kind, via, name), same_object=ga[:4], equal_copy=gb[:4])
+                    break
+            else:
+                ctx.ok("greek.alias_invariant", sig=(kind, via))
     with torch.no_grad():
         hS = 2e-3 * S
         est, dis = richardson(price_S, S, hS, 1)
